@@ -111,9 +111,9 @@ def generate(REPO, GEN, OUT, masks, enums, die, pin=False):
 
     def conv(kind, expr):
         if kind in masks:
-            return "spirv::%s::from_bits(%s).expect(\"vh: mask value\")" % (kind, expr)
+            return "(match spirv::%s::from_bits(%s) { Some(v) => v, None => return CallOut::Unmakeable })" % (kind, expr)
         if kind in enums:
-            return "spirv::%s::from_u32(%s).expect(\"vh: enum value\")" % (kind, expr)
+            return "(match spirv::%s::from_u32(%s) { Some(v) => v, None => return CallOut::Unmakeable })" % (kind, expr)
         die("builder parameter of unknown spirv type %s" % kind)
 
     lines = ["// GENERATED by gen_builder.py from /repo's current Builder sources. Do not edit.\n",
@@ -190,7 +190,7 @@ def generate(REPO, GEN, OUT, masks, enums, die, pin=False):
                     binds.append("let %s = a.id_operands();" % v)
             elif pt.startswith("Option<spirv::"):
                 k = pt[len("Option<spirv::"):-1]
-                binds.append('let %s = a.opt_enum("%s", %s).map(|x| %s);' % (v, k, "true" if followed else "false", conv(k, "x")))
+                binds.append('let %s = match a.opt_enum("%s", %s) { Some(x) => Some(%s), None => None };' % (v, k, "true" if followed else "false", conv(k, "x")))
             elif pt.startswith("spirv::"):
                 k = pt[len("spirv::"):]
                 binds.append('let %s = { let x = a.%s("%s"); %s };' % (v, "enum_any" if followed else "enum_plain", k, conv(k, "x")))
